@@ -237,12 +237,17 @@ def h_roundtrip(ex):
                 w.add(sc.event, triggered=sc.triggered, ray_paths=sc.ray_paths,
                       polarizations=sc.pols, events_thrown=spec.get('thrown', 1))
                 ok = True
-            except (ValueError, TypeError) as e:
+            except (ValueError, TypeError, IndexError) as e:
                 ok = False
                 ex.same(bool(spec.get('bad')), True, 'only-bad-adds-are-rejected')
             if ok:
-                ex.same(bool(spec.get('bad')) and spec.get('bad') != 'harmless', False,
-                        'bad-add-is-rejected')
+                must_reject = bool(spec.get('bad')) and spec.get('bad') != 'harmless'
+                if spec.get('bad') == 'late_trigger':
+                    # a per-waveform trigger list shorter than the number of waveforms is
+                    # only looked at (and refused, AFTER the particle and trigger rows were
+                    # appended) when this add records triggers
+                    must_reject = expect_written(opts, sc)['triggers']
+                ex.same(must_reject, False, 'bad-add-is-rejected')
                 accepted.append(sc)
         w.close()
         rd = HDF5Reader('t.h5')
@@ -501,13 +506,17 @@ A0 = {'particles': 1, 'rays': [0, 0], 'trig': True}
 BAD1 = {'particles': 1, 'rays': [1, 1], 'trig': True, 'bad': 'short_paths'}
 BAD2 = {'particles': 2, 'rays': [1, 1], 'trig': True, 'bad': 'pol_mismatch'}
 BAD3 = {'particles': 1, 'rays': [1, 1], 'trig': True, 'bad': 'no_rays'}
+# rejected late: the list of per-waveform triggers is shorter than the 2 waveforms of antenna 0
+BAD4 = {'particles': 2, 'rays': [2, 1], 'trig': {'global': True, 'per_wave': [True]},
+        'bad': 'late_trigger'}
 
 Q_OPTS = [DEF, ALL_ON, O(require_trigger=False, write_noise=True, write_waveforms=True),
           O(require_trigger=['rays', 'waveforms'], write_waveforms=True, write_antenna_triggers=True),
           O(write_rays=False, write_waveforms=True, write_noise=True),
           O(write_antenna_triggers=True, require_trigger=['antenna_triggers'])]
 Q_ADDS = [[A1, A2, A3], [A2, A1], [A3, A4, A1], [A1, BAD1, A2], [BAD2, A1, A3], [A2, BAD3, A4],
-          [A0, A3], [A4, A1, A3], [A1, BAD3], [A1, A2, BAD1], [A3, BAD2]]
+          [A0, A3], [A4, A1, A3], [A1, BAD3], [A1, A2, BAD1], [A3, BAD2],
+          [A1, BAD4, A2], [BAD4, A3, A1], [A2, A1, BAD4], [A2, BAD4, BAD4, A3]]
 
 
 def _rt_cases(opts_list, adds_list, srs=((None, 1),)):
@@ -559,7 +568,7 @@ HARNESSES = [
 ]
 
 BOUNDS = {
-    'quick': {'adds per file': '2..3 (incl. one rejected add at each position)',
+    'quick': {'adds per file': '2..4 (incl. adds rejected for their ray data or, late, for a short per-waveform trigger list, at each position)',
               'particles per event': '1..2', 'ray solutions per antenna': '0..2',
               'detector': '2 antennas', 'options': '5 combinations of the six write_* flags and '
               'require_trigger (bool and lists)', 'payload': 'energies, vertices, weights, path '
